@@ -47,18 +47,27 @@ def jsonable(obj):
 
 
 def case_size(obj):
-    """Size used to prefer the smallest failing case of a bucket."""
-    if isinstance(obj, bool) or obj is None:
-        return 1
-    if isinstance(obj, (int, float)):
-        return 1 + min(abs(obj), 10 ** 6)
-    if isinstance(obj, str):
-        return 1 + len(obj)
-    if isinstance(obj, (list, tuple)):
-        return 1 + sum(case_size(x) for x in obj)
-    if isinstance(obj, dict):
-        return 1 + sum(case_size(k) + case_size(v) for k, v in obj.items())
-    return 10
+    """Size used to prefer the smallest failing case of a bucket
+    (iterative: cases may be nested hundreds of levels deep)."""
+    total, stack = 0, [obj]
+    while stack:
+        o = stack.pop()
+        if isinstance(o, bool) or o is None:
+            total += 1
+        elif isinstance(o, (int, float)):
+            total += 1 + min(abs(o), 10 ** 6)
+        elif isinstance(o, str):
+            total += 1 + len(o)
+        elif isinstance(o, (list, tuple)):
+            total += 1
+            stack.extend(o)
+        elif isinstance(o, dict):
+            total += 1
+            stack.extend(o.keys())
+            stack.extend(o.values())
+        else:
+            total += 10
+    return total
 
 
 class CpuTimeout(BaseException):
